@@ -42,10 +42,12 @@ def export_facts(repo=None, features=None, tag='default', target=None, quiet=Tru
     moment ago); otherwise the grevm fingerprints are removed so cargo re-runs the driver."""
     repo = repo or REPO
     os.makedirs(CACHE, exist_ok=True)
-    lock = open(os.path.join(CACHE, 'lock'), 'w')
+    lockname = 'lock' if not target else 'lock-' + os.path.basename(target.rstrip('/'))
+    lock = open(os.path.join(CACHE, lockname), 'w')
     fcntl.flock(lock, fcntl.LOCK_EX)
     try:
-        build_driver()
+        if not target:
+            build_driver()
         h = mirlib.src_hash(repo)
         with open(EXT_LIST, 'rb') as f:
             h2 = hashlib.sha256(h.encode() + f.read() + open(os.path.join(DRIVER_SRC, 'src', 'main.rs'), 'rb').read() + (features or '').encode()).hexdigest()
